@@ -25,10 +25,10 @@ ASSUMPTIONS = [
     'history that deletes a result under such a handle is skipped',
     'MultiChain.force is called with task names present in every member chain',
 ]
-RELEVANT = ['is_forced', 'has_data', 'unexpected-run', 'expected-run-missing', 'value', 'force-ran-tasks',
+RELEVANT = ['run-failure-not-propagated', 'runs-after-failure', 'is_forced', 'has_data', 'unexpected-run', 'expected-run-missing', 'value', 'force-ran-tasks',
             'force-raised', 'run-received-wrong-inputs-or-parameters', 'ran-before-inputs-available', 'tasks_df-computed']
 KINDS = {'chain': 2, 'multichain': 1, 'value': 7, 'inspect': 1, 'force_task': 3, 'force_chain': 5, 'restart': 1,
-         'session': 1}
+         'session': 1, 'fault': 1}
 ZY = {}
 
 
